@@ -400,6 +400,11 @@ def _annotated(f, pname):
     return None
 
 
+def r8_kinds(repo):
+    """substitution is a case analysis by kind predicates"""
+    return kernel.kind_table(repo, "C07-R8")
+
+
 def rules():
     return [
         RuleSpec("C07-R1", "substitution visits every recursive position", 9, r1_positions),
@@ -410,6 +415,7 @@ def rules():
         RuleSpec("C07-R6", "has_type_variables (the condition of every substitution) is the structural fold", 7,
                  r6_has_type_variables),
         RuleSpec("C07-R7", "type constructors store their arguments as given", 10, r7_constructors_store_verbatim),
+        RuleSpec("C07-R8", "each class of the type representation answers exactly its own kind predicate", 28, r8_kinds),
     ]
 
 
@@ -482,9 +488,37 @@ def _t_rename(tree):
     V.rename_local(f, "type_params", "params2")
 
 
+def _v_wild_htv_nonnull(tree):
+    f = V.find_def(tree, "WildCardType.has_type_variables")
+    r = V.one([n for n in ast.walk(f) if isinstance(n, ast.Return)])
+    r.value = V.parse_expr("self.bound is not None")
+
+
+def _v_ptype_htv_first(tree):
+    f = V.find_def(tree, "ParameterizedType.has_type_variables")
+    r = V.one([n for n in ast.walk(f) if isinstance(n, ast.Return)])
+    r.value = V.parse_expr("self.type_args[0].has_type_variables()")
+
+
+def _v_tparam_ctor_normalises(tree):
+    f = V.find_def(tree, "TypeParameter.__init__")
+    st = V.one([n for n in ast.walk(f) if isinstance(n, ast.Assign) and ast.unparse(n.targets[0]) == "self.bound"])
+    st.value = V.parse_expr("bound.get_bound_rec() if bound is not None and bound.is_wildcard() else bound")
+
+
+def _v_constructor_kind(tree):
+    f = V.find_def(tree, "TypeConstructor.is_type_constructor")
+    r = V.one([n for n in ast.walk(f) if isinstance(n, ast.Return)])
+    r.value = V.parse_expr("bool(self.type_parameters) and False")
+
+
 def variants():
     t = "src/ir/types.py"
     return [
+        V.Variant("a projection 'has type variables' whenever it has a bound", t, _v_wild_htv_nonnull, {"C07-R6"}),
+        V.Variant("a parameterized type looks at its first argument only", t, _v_ptype_htv_first, {"C07-R6"}),
+        V.Variant("TypeParameter's constructor unwraps a projected bound", t, _v_tparam_ctor_normalises, {"C07-R7"}),
+        V.Variant("TypeConstructor no longer answers is_type_constructor", t, _v_constructor_kind, {"C07-R8"}),
         V.Variant("wildcard bound passed through unsubstituted", t, _v_wild_passthrough, {"C07-R1"}),
         V.Variant("type-variable bound passed through", t, _v_tparam_bound_passthrough, {"C07-R1"}),
         V.Variant("first type argument not substituted", t, _v_skip_first_arg, {"C07-R1"}),
